@@ -127,6 +127,23 @@ def stack_exec(n=60, **kw):
     return f
 
 
+def stack_growth_align_exec():
+    """over-aligned requests that force a growth, sized around next_capacity(): the fit check of the growth path has to
+    use the padding the NEW block needs (old top and new block start differ in their residue modulo the alignment)"""
+    def f(rng):
+        bs = rng.choice([200, 256, 1000, 1008, 1024])
+        h = {"fam": "stack", "src": rng.choice(["grow", "grow", "fixed"]), "place": rng.choice(["lo", "hi"]), "member": 0, "bs": bs}
+        if rng.random() < 0.3:
+            h["down"] = 1
+        al = rng.choice([32, 64, 64])
+        out = []
+        for k in (8, 24, 40, 56):
+            for d in (0, 8, 16, 24, 32, 40, 48, 56):
+                out.append((h, ["an %d 8" % k, "anr %d %d" % (d, al), "an 8 8", "anr %d %d" % (d + 8, al), "an 8 8", "sweep", "d 0", "d 0"]))
+        return out
+    return f
+
+
 def stack_replay_exec(**kw):
     def f(rng):
         h = gen.stack_header(rng, kw.get("src"))
@@ -194,6 +211,15 @@ def move_all_positions(maker, maxlen=14):
             cmds = cmds[:maxlen]
             for kind in ("mv", "ma"):
                 out += gen.move_everywhere(h, cmds, kind, rng.randint(0, 1))
+        return out
+    return f
+
+
+def move_chains(maker, maxlen=12):
+    def f(rng):
+        out = []
+        for h, cmds in maker(rng):
+            out += gen.move_chain_everywhere(h, cmds[:maxlen], rng.randint(0, 1))
         return out
     return f
 
@@ -386,6 +412,7 @@ def jobs_for(prop, tier, seed):
         add(["rel", "base", "dbg", "f16"], "pools", [(14, pool_exec()), (10, coll_exec()), (4, coll_fill_exec()), (3, coll_small_try_exec()), (3, coll_try_tail_exec())])
         add(["rel", "base", "dbg", "f16"], "stacks", [(8, stack_exec()), (8, iter_exec()), (2, static_exec()),
                                                       (3, stack_replay_exec())])
+        add(["rel", "base", "dbg", "f16"], "growalign", [(2, stack_growth_align_exec())], scale=min(s, 4.0))
         add(["base", "dbg"], "moves", [(4, moved(pool_exec())), (3, moved(coll_exec())), (3, moved(stack_exec())),
                                        (2, moved(iter_exec()))])
         # fixed storages that change hands: the new owner must stay inside the storage it took over
@@ -429,6 +456,9 @@ def jobs_for(prop, tier, seed):
     elif prop == "C12":
         add(["rel", "base", "dbg"], "everypos", [(2, move_all_positions(pool_exec(n=12))), (2, move_all_positions(coll_exec(n=12))),
                                                  (2, move_all_positions(stack_exec(n=12))), (1, move_all_positions(iter_exec(n=10)))])
+        # the moved-from object is assigned to (mz), at every position, for every pool type / collection / stack
+        add(["rel", "base", "dbg"], "chains", [(3, move_chains(pool_exec(n=12))), (2, move_chains(coll_exec(n=12))),
+                                               (2, move_chains(stack_exec(n=12))), (1, move_chains(iter_exec(n=10)))])
         add(["rel", "base", "dbg"], "arena", [(10, arena_exec(n=50))])
         # fixed storages: after a move or swap the new owner has to run into the end of the SOURCE's storage
         add(["rel", "base", "dbg"], "static", [(5, moved(stack_exec(src="static", n=70), 0.06)), (5, moved(pool_exec(src="static", n=90), 0.06)),
@@ -455,6 +485,7 @@ def jobs_for(prop, tier, seed):
         add(["rel", "base", "dbg", "f16"], "counters", [(8, pool_exec()), (6, coll_exec()), (8, stack_exec()), (6, iter_exec()),
                                                         (2, static_exec()), (6, arena_exec(moves=False))])
         add(["rel", "base", "dbg", "f16"], "maxima", [(6, coll_max_exec()), (6, coll_try_tail_exec())])
+        add(["rel", "base", "dbg", "f16"], "growalign", [(2, stack_growth_align_exec())], scale=min(s, 4.0))
         # a request that fails because the upstream refuses must leave every figure as it was
         add(["rel", "base", "dbg"], "faults", [(4, pool_exec(fail=True)), (4, coll_exec(fail=True)), (5, stack_exec(fail=True)),
                                                (2, fail_all_positions(stack_exec(n=30))), (2, fail_all_positions(pool_exec(n=30)))])
